@@ -201,6 +201,22 @@ prop("C09", "exploration",
      [{"test": "TestC09", "quick": {"checks": 10000, "shards": 2, "timeout": 600},
        "thorough": {"checks": 100000, "shards": 16, "timeout": 3000}}])
 
+prop("C14", "exploration",
+     "cases = (precompile 0x64 / 0x65 / 0x66) x (CALL, CALLCODE, DELEGATECALL, STATICCALL) x depth (0 = entry point straight "
+     "to the precompile, 1-3 = wrapper contract behind 0-2 forwarding proxies) x calling code optionally running under "
+     "DELEGATECALL of a proxy x gas argument {0, 4999, 5000, 5001, ample} x forks {Byzantium, Petersburg, Istanbul | Berlin, "
+     "London, Shanghai, Cancun} x host reply (generated value or error) x payload: 0x64 lengths {0,1,19,20,21,52,100}; 0x65 "
+     "lengths {0,1,31,32,33,64,80}; 0x66 valid abi.encode(bytes,bytes) (canonical or with gaps) mutated by truncation, head / "
+     "length words from {0,31,32,33,63,64,96,128,2^31,2^63,2^64-32,2^64-1,2^64,2^256-1, len-32, len-31, len, len-33}, trailing "
+     "garbage. Oracle = host-callback recorder + independent overflow-safe ABI decoder: host called iff the payload carries "
+     "the item, with exactly (address,key) / hash / (key,value); return data == host reply; host error => call fails; "
+     "undecodable payloads >= 128 bytes => error and no host call; a write is recorded under the storage-context address of "
+     "the frame whose call reached the precompile, or refused with an error, never elsewhere, never a panic; successful calls "
+     "consume exactly 5000 gas, less gas => out of gas and no host call; before Berlin no host call. Non-trivial = payload "
+     ">= 128 bytes, a non-CALL kind, or an underpaid call.",
+     [{"test": "TestC14", "quick": {"checks": 12000, "shards": 2, "timeout": 600},
+       "thorough": {"checks": 120000, "shards": 16, "timeout": 3000}}])
+
 # ---------------------------------------------------------------------------
 # Text for MANIFEST.json (gen_manifest.py)
 
@@ -318,6 +334,15 @@ MANIFEST_TEXT = {
                       "Calls issued by pre-transaction Aspects never target precompiles (pruning before CaptureStart is "
                       "not determined by the statement).",
         "technique": "model-based property testing: generated frame trees vs decoded tracer output (rapid)",
+    },
+    "C14": {
+        "level_text": "Property-based testing of the three Artela precompiles through real byte-code callers of every call kind "
+                      "against a host-callback recorder and an independent strict ABI decoder.",
+        "design_ref": "DESIGN.md section 4, C14",
+        "level_note": "Payloads below the minimum length (20 / 1 / 128 bytes) may be rejected or answered with empty success, but "
+                      "must not reach the host. A decodable context write may be refused with an error (e.g. for call kinds "
+                      "that carry no caller context) but never attributed to another address.",
+        "technique": "property-based testing with an independent decoder and host-callback recorder (rapid)",
     },
     "C15": {
         "level_text": "Model-based property testing: executable reference models of EIP-1153 and EIP-5656 (written from the "
